@@ -463,6 +463,10 @@ impl AssetCategorizer {
                 asset,
                 &self.asset_to_policy[asset],
             );
+            #[cfg(csl_verif)]
+            tx_proposal
+                .verif_trace
+                .push(format!("V,{},{},{}", asset.0, create_new as u8, new_size));
             if new_size <= self.config.max_value_size as usize {
                 asset_to_output.insert(asset.clone());
                 old_value_state = new_value_state.clone();
@@ -500,6 +504,18 @@ impl AssetCategorizer {
         self.recalculate_outputs(tx_proposal)?;
         let (tx_fee, tx_size) = self.estimate_fee(tx_proposal)?;
         tx_proposal.set_fee(&tx_fee);
+        #[cfg(csl_verif)]
+        tx_proposal.verif_trace.push(format!(
+            "S,{},{},{}",
+            tx_fee.to_str(),
+            tx_size,
+            tx_proposal
+                .tx_output_proposals
+                .iter()
+                .map(|o| format!("{}:{}:{}", o.total_ada.to_str(), o.min_ada.to_str(), o.size))
+                .collect::<Vec<String>>()
+                .join(";")
+        ));
 
         Ok(tx_size)
     }
